@@ -301,6 +301,40 @@ def run(res, tier):
             how += '; writer widths %s; reader widths %s' % (sorted(pw.get(name, [])), sorted(pr.get(name, [])))
         res.ob('SHAPE', 'lang/python3/message.py', 'Python codec for %s has the documented shape %s' % (name, DOC[name]), ok, how=how, function='Python:' + name, key='SHAPE|python|%s' % name,
                message='message.py handles %s as [%s], the documented wire format is %s' % (name, how, DOC[name]))
+    # ------------------------------------------------------------------------------------------- reader accepts what the writers produce
+    C01.exact_fit_rule(res, fx)
+    C01.min_entry_rule(res, fx)
+    from . import C03
+    C03.recv_capacity_rule(res, fx)
+    # C micro writer: the item-count word of a variable-size field grows by the number of items the call appends
+    res.rule('MICRO-COUNT', 'MicroMessage.c: an adder that maintains a count header (UMWriteInt32(hdr, UMReadInt32(hdr) + k)) adds k = the bound of its item loop, or 1 when it appends a single item', floor=2)
+    n_mc = 0
+    for f in sorted((f for f in fx.funcs.values() if f.full and f.file.endswith('micromessage/MicroMessage.c')), key=lambda f: f.line):
+        for c in f.walk():
+            if not (c.is_call() and (c.get('q') or '') == 'UMWriteInt32' and len(c.args()) == 2):
+                continue
+            v = A.strip_casts(c.args()[1])
+            if v['k'] != 'BinaryOperator' or v.get('op') != '+':
+                continue
+            rd = [x for x in v['ch'][0].walk() if x.is_call() and (x.get('q') or '') == 'UMReadInt32' and x.args() and A.strip_casts(x.args()[0]).get('d') == A.strip_casts(c.args()[0]).get('d')]
+            if not rd or 'd' not in A.strip_casts(c.args()[0]):
+                continue
+            inc = A.strip_casts(v['ch'][1])
+            loops = [l for l in f.walk() if l['k'] == 'ForStmt']
+            bound = None
+            for l in loops:
+                cond = l.role('cond') if hasattr(l, 'role') else None
+                if cond is not None and cond['k'] == 'BinaryOperator' and cond.get('op') == '<':
+                    b = A.strip_casts(cond['ch'][1])
+                    if b['k'] == 'DeclRefExpr' and 'd' in b and any(p_['d'] == b['d'] for p_ in f.params):
+                        bound = b
+            n_mc += 1
+            ok = (bound is not None and inc.get('d') == bound['d']) or (bound is None and inc.get('v') == 1)
+            res.ob('MICRO-COUNT', f.where(c), '%s: count header grows by %s' % (f.q, bound.text() if bound is not None else '1'), ok, how='increment `%s`' % inc.text(20), function=f.q, key='MICRO-COUNT|%s' % f.q,
+                   message='%s appends %s item(s) but increases the field\'s item-count word by `%s`: the bytes differ from what the other implementations write for the same content, and the C++ parser '
+                           'rejects the field' % (f.q, bound.text() if bound is not None else 'one', inc.text(20)))
+    if n_mc < 2:
+        raise AnalysisBroken('MICRO-COUNT: %d count-header updates found in MicroMessage.c' % n_mc)
     # ------------------------------------------------------------------------------------------- HEADER
     res.rule('HEADER', 'every writer starts a Message with three 32-bit words: protocol version constant, what code, field count', floor=3)
     ver = int(fx.macros['CURRENT_PROTOCOL_VERSION'][0]['body'].split()[0])
